@@ -293,4 +293,13 @@ theorem sq_fabs (t : α) : sq (fabs t) = sq t := by
   unfold fabs sq; split <;> ring
 
 
+theorem planeCard_some (ok : TranscOK α) (a b c d : α) (h : 0 < a * a + b * b + c * c) :
+    planeCard a b c d = some (cadPlane4 a b c d) := by
+  have := (ok.sqrt_pos _ h).ne'
+  simp [planeCard, this]
+
+theorem planeCard_convert (ok : TranscOK α) (a b c d : α) (h : 0 < a * a + b * b + c * c) :
+    cadOf (0:α) 0 "p" [a, b, c, d] = some (cadPlane4 a b c d) :=
+  (show cadOf (0:α) 0 "p" [a, b, c, d] = planeCard a b c d from rfl).trans (planeCard_some ok a b c d h)
+
 end T4V.Surf
